@@ -203,8 +203,13 @@ impl<const N: usize> AEADCipherCodec<N> {
         }
         aead_2022::validate_timestamp(header.get_u64()).map_err(anyhow::Error::msg)?;
         if matches!(session.mode, Mode::Client) {
-            header.copy_to_slice(session.identity.request_salt.as_mut().unwrap());
-            trace!("[tcp] get request header salt {}", Base64::encode_string(session.identity.request_salt.as_ref().unwrap()));
+            let mut request_salt = [0; N];
+            header.copy_to_slice(&mut request_salt);
+            trace!("[tcp] get request header salt {}", Base64::encode_string(&request_salt));
+            if request_salt != session.identity.salt {
+                bail!("response is not bound to this request: request salt mismatch")
+            }
+            session.identity.request_salt = Some(request_salt);
         };
         let length = header.get_u16() as usize;
         if _src.remaining() >= length + tag_size {
